@@ -1,10 +1,11 @@
 #!/bin/bash
-# usage: harness/seedround.sh C10 [extra seedcheck args]   — validate the two round-2 seeds of one property
+# usage: [SUFFIX=b LABEL=r2] harness/seedround.sh C10 [extra seedcheck args] — validate the two seeds of one property/round
 cd "$(dirname "$0")/.."
 c=$1; shift
-git -C /repo worktree remove --force /tmp/seed/${c}b 2>/dev/null
+sfx=${SUFFIX:-b}; lab=${LABEL:-r2}
+git -C /repo worktree remove --force /tmp/seed/${c}${sfx} 2>/dev/null
 mkdir -p scratch/seedlogs
 for m in 1 2; do
-  /venv/bin/python harness/seedcheck.py $c /tmp/seed/${c}b-out/mut$m $c-r2-mut$m "$@" > scratch/seedlogs/$c-r2-mut$m.log 2>&1
-  echo "$c-r2-mut$m: $(tail -1 scratch/seedlogs/$c-r2-mut$m.log)"
+  /venv/bin/python harness/seedcheck.py $c /tmp/seed/${c}${sfx}-out/mut$m $c-$lab-mut$m "$@" > scratch/seedlogs/$c-$lab-mut$m.log 2>&1
+  echo "$c-$lab-mut$m: $(tail -n 1 scratch/seedlogs/$c-$lab-mut$m.log)"
 done
